@@ -255,6 +255,8 @@ pub fn base_sources(tier: Tier) -> Vec<(String, String)> {
     for (i, s) in [
         "start A struct A { x : $T } terminal Tok { $T : a :: B < c , ( ) > } )",
         "start A #[a] start B",
+        "start Foo struct #[doc = \"café 日本語 🦀\"] Foo { a : $T }",
+        "start A #[é] #[€(😀)] struct A enum #[ü] B { } terminal Tok { }",
         "struct A ( _ : $T $T ) enum",
         "terminal Tok { $T : a < > }",
         "start a struct a terminal Tok { }",
